@@ -228,6 +228,36 @@ func s5(builder string, L, nbTasks int) scenario {
 		}}
 }
 
+// S5i: the solver's workers on a wide level of pure CHECKS with an invalid witness whose failures
+// fall into different task chunks (several workers report an error in the same level).
+func s5invalid(builder string, L, nbTasks int, wrong []int) scenario {
+	mk := func() *circ.C {
+		return circ.New(L, 2, func(api frontend.API, p, s []frontend.Variable) error {
+			for i := 0; i < L; i++ {
+				api.AssertIsEqual(api.Mul(api.Add(s[0], i), s[1]), p[i])
+			}
+			return nil
+		})
+	}
+	pub := make([]int64, L)
+	for i := range pub {
+		pub[i] = (3 + int64(i)) * 5
+	}
+	for _, w := range wrong {
+		pub[w]++
+	}
+	return scenario{name: fmt.Sprintf("S5i-workers-invalid-%s-L%d-n%d-wrong%v", builder, L, nbTasks, wrong), mode: vsched.Preemption, bound: [2]int{0, 1},
+		setup: func() ([]func() string, []string) {
+			ccs := mustCompile(builder, mk())
+			w := mustWitness(pub, []int64{3, 5})
+			var exp []string
+			if wantExpect {
+				exp = []string{solveObs(mustCompile(builder, mk()), w, solver.WithNbTasks(1))}
+			}
+			return []func() string{func() string { return solveObs(ccs, w, solver.WithNbTasks(nbTasks)) }}, exp
+		}}
+}
+
 func commitCircuit() *circ.C {
 	return circ.New(1, 2, func(api frontend.API, p, s []frontend.Variable) error {
 		cm, err := api.(frontend.Committer).Commit(s[0], p[0])
@@ -379,6 +409,7 @@ func scenarios() []scenario {
 	return []scenario{
 		s1(circ.R1CS), s1(circ.SCS),
 		s5(circ.R1CS, 51, 2), s5(circ.SCS, 52, 3), s5(circ.R1CS, 103, 3),
+		s5invalid(circ.R1CS, 102, 2, []int{0, 101}), s5invalid(circ.SCS, 153, 3, []int{0, 76, 152}), s5invalid(circ.R1CS, 102, 3, []int{40}),
 		sProve("plonk"), sProve("groth16"),
 		sSharedHash("groth16"),
 	}
